@@ -341,10 +341,10 @@ func minimise(prog N, fn string, args []any, kind string) (N, []string) {
 	if stillFails([]N{cur}, 0) == nil {
 		return nil, nil
 	}
-	for round := 1; round <= 14; round++ {
+	for round := 1; round <= 8; round++ {
 		cands := candidates(cur)
-		if len(cands) > 120 {
-			cands = cands[:120]
+		if len(cands) > 60 {
+			cands = cands[:60]
 		}
 		next := stillFails(cands, round)
 		if next == nil || size(next) >= size(cur) {
